@@ -215,5 +215,32 @@ def unflatten {β : Type} : List (String × Nat) → List β → List (String ×
   | [], _ => []
   | (nm, len) :: rest, θ => (nm, θ.take len) :: unflatten rest (θ.drop len)
 
+/-! ### gradient hand-off to the optimiser (`optimize/_internal.py:8-63`, `192-258`)
+
+`_get_sorted_parameter` keeps the parameters with `requires_grad=True`, sorted by name; `get_model_flat_parameter`,
+`get_model_flat_grad`, `set_model_flat_parameter` and the closure returned by `hf_model_wrapper` all go through it, so frozen
+parameters are skipped consistently and the vector handed to `scipy.optimize.minimize` (`jac=True`) is the concatenation of the
+`.grad`s in that order. -/
+
+/-- `(name, requires_grad, flat data)` in registration order -/
+abbrev ParamList (β : Type) := List (String × Bool × List β)
+
+/-- `_get_sorted_parameter` -/
+def trainable {β : Type} (ps : ParamList β) : List (String × List β) :=
+  sortByName ((ps.filter fun p => p.2.1).map fun p => (p.1, p.2.2))
+
+/-- `get_model_flat_parameter` / `get_model_flat_grad` -/
+def getFlat {β : Type} (ps : ParamList β) : List β := (trainable ps).flatMap (·.2)
+
+/-- `set_model_flat_parameter`: the trainable parameters after the call (name, new data), `index01` from the cumulative sizes -/
+def setFlat {β : Type} (ps : ParamList β) (θ : List β) : List (String × List β) :=
+  unflatten ((trainable ps).map fun p => (p.1, p.2.length)) θ
+
+/-- every parameter after `set_model_flat_parameter` (registration order; frozen ones untouched) -/
+def afterSet {β : Type} (ps : ParamList β) (θ : List β) : ParamList β :=
+  ps.map fun p => if p.2.1 then
+      (p.1, true, (((setFlat ps θ).find? fun q => q.1 == p.1).map (·.2)).getD p.2.2)
+    else p
+
 end Backward
 end Numqi
